@@ -72,6 +72,7 @@ type violation struct {
 	Job       *Job
 	Out       []string
 	Stack     string
+	MapOrder  int // number of map-iteration-order choices on the path
 }
 
 type Exec struct {
@@ -108,6 +109,7 @@ type Exec struct {
 	inPanics                        int
 	merging                         int
 	pendingUnsafe                   string
+	mapChoices                      int
 	pending                         []pendingAssert
 	noMerge                         bool
 	threads                         *threadState
@@ -464,7 +466,7 @@ func (ex *Exec) fail(kind, label, detail string) {
 		}
 		v := &violation{Label: label, Kind: kind, Detail: detail, Model: ex.model,
 			Vals: append([]replayValue(nil), ex.vals...), Decisions: append([]decision(nil), ex.decisions...),
-			Job: ex.job, Out: append([]string(nil), ex.outLog...)}
+			Job: ex.job, Out: append([]string(nil), ex.outLog...), MapOrder: ex.mapChoices}
 		var st []string
 		for _, f := range ex.callStack {
 			st = append(st, f.String())
